@@ -12,6 +12,7 @@
 #include <vector>
 #include <dlfcn.h>
 #include <sys/stat.h>
+#include <time.h>
 #include <unistd.h>
 #include <hdf5.h>
 
@@ -68,9 +69,11 @@ unsigned long long h5m_file_mutations(const char *name) {      // a fingerprint 
     fclose(f); return h;
 }
 int h5m_file_is_open(const char *) { return H5Fget_obj_count((hid_t)H5F_OBJ_ALL, H5F_OBJ_FILE) > 0; }
-int h5m_open_ids(const char *, int include_file_ids) { return (int)H5Fget_obj_count((hid_t)H5F_OBJ_ALL, include_file_ids ? H5F_OBJ_ALL : (H5F_OBJ_ALL & ~H5F_OBJ_FILE)); }
+int h5m_open_ids(const char *, int include_file_ids) { return (int)H5Fget_obj_count((hid_t)H5F_OBJ_ALL, (include_file_ids ? H5F_OBJ_FILE : 0u) | H5F_OBJ_GROUP | H5F_OBJ_DATASET | H5F_OBJ_ATTR)   /* transient datatypes belong to no file */; }
 long long h5m_file_size(const char *name) { struct stat st; return stat(name, &st) == 0 ? (long long)st.st_size : -1; }
 void h5m_make_raw_file(const char *name, long long size) { FILE *f = fopen(name, "wb"); if (f) { for (long long i = 0; i < size; i++) fputc('x', f); fclose(f); } }
+// the process's time zone, as seconds east of UTC (POSIX TZ strings carry the opposite sign)
+void vrt_set_tz(long e) { char b[64]; long a = e < 0 ? -e : e; snprintf(b, sizeof b, "VRT%c%ld:%02ld:%02ld", e >= 0 ? '-' : '+', a / 3600, a / 60 % 60, a % 60); setenv("TZ", b, 1); tzset(); }
 void h5m_make_plain_file(const char *name) { hid_t f = H5Fcreate(name, H5F_ACC_TRUNC, H5P_DEFAULT, H5P_DEFAULT); if (f >= 0) H5Fclose(f); }
 }
 
